@@ -47,6 +47,8 @@ def env_knobs(rng, knobs, unusable_tmp=False):
         # where the simulated wall clock stands: the epoch, 2000, either side of 2^31 and 2^32 seconds, long ago relative to
         # every file's mtime, far ahead of it
         knobs["clock"] = rng.choice([1, 946684800, 2147483640, 2147483650, 4294967290, 4294967300, 1600000000, 7258118400])
+    if rng.random() < 0.1:
+        knobs["dt_unknown"] = True   # a file system whose readdir does not tell the entry type (d_type = DT_UNKNOWN)
     if rng.random() < 0.12:
         # descriptors are a bounded resource: with a small RLIMIT_NOFILE whatever leaks one per file runs out within a
         # many-file world (the unchanged tool never holds more than eight)
